@@ -275,6 +275,22 @@ def search(req):
     if c.get("self_class") == "new":                      # a constructor contract: calling the class runs __init__
         cls = resolve(target.rsplit(".", 1)[0])
         fn = lambda **kw: (cls(**kw), None)[1]
+    elif c.get("self_class") == "Monitor":                # the progress monitor: a fresh (idle) or started receiver, output discarded
+        import contextlib
+        import io
+        cls = resolve(target.rsplit(".", 1)[0])
+        started = c.get("self_config", {}).get("started", False)
+
+        def fn(**kw):
+            kw.pop("self", None)
+            m_ = cls()
+            with contextlib.redirect_stdout(io.StringIO()):
+                if started:
+                    m_(1, 10)
+                return m_(**kw)
+        c = dict(c)
+        c["params"] = {k_: v_ for k_, v_ in c["params"].items() if k_ != "self"}
+        c.setdefault("candidates", {}).update({"current_state": list(range(0, 6)) + [10, 99, 100, 101], "total_state": list(range(0, 6)) + [10, 100]})
     elif c.get("self_class") == "LocalBioFilter":         # a method contract: receivers from a configuration grid of the contract's shape
         cls = resolve(target.rsplit(".", 1)[0])
         cfg = c.get("self_config", {})
